@@ -44,7 +44,8 @@ BuildEv(s0, in, s1) ==
                                    nobj |-> IF isTask /\ m.task.t = "cmd" THEN 1 ELSE 0,
                                    ob |-> IF isTask /\ m.task.t = "cmd" THEN m.task.ob ELSE "",
                                    pid |-> IF "pid" \in DOMAIN m THEN m.pid ELSE 0,
-                                   period |-> IF "period" \in DOMAIN m THEN m.period ELSE 0, proc |-> ""]]
+                                   period |-> IF "period" \in DOMAIN m THEN m.period ELSE 0,
+                                   proc |-> IF isTask /\ m.task.t = "time" THEN m.task.proc ELSE ""]]
          [] in.k = "rx" ->
               LET f == in.f
               IN base @@ [rx |-> [fc |-> f.fc, seq |-> f.seq, fir |-> f.fir, fin |-> f.fin, con |-> f.con, uns |-> f.uns,
@@ -71,8 +72,10 @@ InOf(e) ==
                           [] r.kind = "restart" -> [t |-> "restart", id |-> r.id]
                           [] r.kind = "link_status" -> [t |-> "link", id |-> r.id]
                           [] r.kind = "empty" -> [t |-> "empty", id |-> r.id]
+                          [] r.kind = "time" /\ r.proc \in {"lan", "nonlan"} ->
+                                [t |-> "time", id |-> r.id, proc |-> r.proc, step |-> IF r.proc = "lan" THEN "record" ELSE "measure"]
                           [] OTHER -> [t |-> "?"]
-            IN IF r.kind \in {"read", "cmd", "restart", "link_status", "empty"} THEN
+            IN IF r.kind \in {"read", "cmd", "restart", "link_status", "empty", "time"} THEN
                     IF task.t = "?" THEN [k |-> "?"] ELSE [k |-> "req", m |-> [k |-> "task", a |-> a, task |-> task]]
                ELSE IF r.kind = "poll_add" /\ a # 0 THEN [k |-> "req", m |-> [k |-> "poll_add", a |-> a, pid |-> r.pid, period |-> r.period, id |-> r.id]]
                ELSE IF r.kind = "poll_demand" /\ a # 0 THEN [k |-> "req", m |-> [k |-> "poll_demand", a |-> a, pid |-> r.pid, id |-> r.id]]
